@@ -8,7 +8,8 @@ import sbc_common as SC
 from common import prove, driver
 
 P = "Matid.Props.C17."
-THEOREMS = [P + t for t in ("classify2D_cases", "classify_total", "refined_has_region", "crossValidate_mem", "basis_outliers_partition")] + \
+THEOREMS = [P + t for t in ("classify2D_cases", "classify_total", "refined_has_region", "crossValidate_mem", "basis_outliers_partition",
+                            "repeated_calls_agree", "classifier_config_readonly")] + \
     ["Matid.Props.C09.dimension_in_range"]
 TRUSTED = ["Lean 4 kernel", "axioms: propext, Classical.choice, Quot.sound at most (audited per run)",
            "hand-written model MatidModel/Classifier.lean tied by (a) the dispatch driven with a patched finder/dimensionality and (b) recorded real classifications replayed through the model",
@@ -98,6 +99,18 @@ def synthetic_dispatch(ctx, ncase):
     return mism
 
 
+CONFIG_KEYS = ("pos_tol", "max_cell_size", "pos_tol_mode", "angle_tol", "cluster_threshold", "radii", "bond_threshold", "min_coverage",
+               "cell_size_tol", "max_2d_cell_height", "max_2d_single_cell_size", "symmetry_tol", "delaunay_threshold", "crystallinity_threshold")
+
+
+def config_snapshot(clf):
+    out = {}
+    for k in CONFIG_KEYS:
+        v = getattr(clf, k, None)
+        out[k] = np.asarray(v, dtype=float).tolist() if isinstance(v, (list, tuple, np.ndarray)) else v
+    return out
+
+
 def real_runs(ctx, nrun):
     """real classifications: oracle of the property + replay of the recorded finder outputs through the model"""
     import matid.geometry as G
@@ -115,12 +128,18 @@ def real_runs(ctx, nrun):
                 continue
             a.set_cell(np.zeros((3, 3)))         # "no cell at all"
         kw = {} if k % 3 else {"cluster_threshold": float(rng.uniform(2.5, 4.0)), "min_coverage": float(rng.uniform(0.3, 0.7))}
+        if k % 4 == 1:      # tolerances / cell sizes handed over as numpy arrays (the documented "float or list" parameters)
+            kw = dict(kw, pos_tol=np.array([float(rng.uniform(0.3, 0.7))]), max_cell_size=np.array([float(rng.uniform(6, 12))]))
+        caller_arrays = {n_: np.array(v_) for n_, v_ in kw.items() if isinstance(v_, np.ndarray)}
         snap = SC.snapshot(a)
-        case = {"atoms": crystals.atoms_to_json(a), "kwargs": kw, "kind": kind}
+        case = {"atoms": crystals.atoms_to_json(a), "kwargs": {n_: (v_.tolist() if isinstance(v_, np.ndarray) else v_) for n_, v_ in kw.items()},
+                "kwargs_as_ndarray": sorted(caller_arrays), "kind": kind}
         ctx.count("real_" + kind)
         try:
+            clf = Classifier(**kw)
+            cfg0 = config_snapshot(clf)
             with SC.FinderRecorder() as rec:
-                c = Classifier(**kw).classify(a)
+                c = clf.classify(a)
         except Exception as e:  # noqa
             bad.append({"case": case, "complaints": ["exception %s: %s" % (type(e).__name__, str(e)[:200])]})
             continue
@@ -149,9 +168,17 @@ def real_runs(ctx, nrun):
             if len(basis) < kw.get("min_coverage", 0.5) * len(a) - 1e-9:
                 complaints.append("region covers %d of %d atoms, below min_coverage" % (len(basis), len(a)))
         try:
-            again = type(Classifier(**kw).classify(a)).__name__
-            if again != name:
-                complaints.append("second call gives %s instead of %s" % (again, name))
+            # repeated calls on the SAME object, then a fresh object: all three must agree; the configuration of the object
+            # and the caller's parameter arrays must be what they were
+            again = [type(clf.classify(a)).__name__, type(clf.classify(a)).__name__, type(Classifier(**kw).classify(a)).__name__]
+            if any(x != name for x in again):
+                complaints.append("repeated calls give %s after %s (same object twice, then a fresh object)" % (again, name))
+            if config_snapshot(clf) != cfg0:
+                complaints.append("classify changed the configuration of the Classifier object: %s" % sorted(
+                    k_ for k_ in cfg0 if config_snapshot(clf).get(k_) != cfg0[k_]))
+            for n_, v_ in caller_arrays.items():
+                if not np.array_equal(kw[n_], v_):
+                    complaints.append("classify modified the caller's %s array" % n_)
         except Exception as e:  # noqa
             complaints.append("second call raised %r" % e)
         if complaints:
@@ -172,9 +199,15 @@ def real_runs(ctx, nrun):
 def run(ctx):
     common.install_matid()
     broken = []
-    ok, info = prove(ctx, "MatidProps.C17", THEOREMS, extra_imports=("MatidProps.C09",), gen_targets=("MatidProps.C09",))
-    if not ok:
-        broken.append(("proof", info))
+    terr = common.regen(ctx, ("classifier_rule",))
+    if terr:
+        for t in THEOREMS:
+            ctx.obligations.append((t, False))
+        broken.append(("translator", terr))
+    else:
+        ok, info = prove(ctx, "MatidProps.C17", THEOREMS, extra_imports=("MatidProps.C09",), gen_targets=("MatidProps.C09",))
+        if not ok:
+            broken.append(("proof", info))
     mism, bad = [], []
     try:
         mism = synthetic_dispatch(ctx, ctx.n(600, 20000))
@@ -209,7 +242,10 @@ def replay(path):
     c = r.get("case", {})
     if "atoms" in c:
         try:
-            print("now:", type(Classifier(**c["kwargs"]).classify(crystals.atoms_from_json(c["atoms"]))).__name__)
+            kw = {k_: (np.array(v_) if k_ in c.get("kwargs_as_ndarray", []) else v_) for k_, v_ in c["kwargs"].items()}
+            clf = Classifier(**kw)
+            at = crystals.atoms_from_json(c["atoms"])
+            print("now (same object three times):", [type(clf.classify(at)).__name__ for _ in range(3)])
         except Exception as e:  # noqa
             print("now raises", repr(e))
     print(r.get("what"), r.get("complaints"))
